@@ -246,6 +246,10 @@ impl System for Sys {
     }
 }
 
+pub fn all_hows() -> Vec<How> {
+    vec![How::Complete, How::FirstFrag, How::ExtComplete, How::ExtFirstFrag, How::FailSmallBuffer, How::FailLongPdu, How::FailPtype, How::ExtFailSmallBuffer]
+}
+
 pub fn run(tier: Tier) -> i32 {
     let rep = Report::new("C15", tier);
     rep.set_rule("closure (breadth-first, no depth bound) of the real Encapsulator under the op alphabet: send(label in {two 6-byte, two 3-byte, broadcast, explicit re-use} x how in {complete, first fragment, encap_ext complete, encap_ext first fragment, fail: small buffer, fail: PDU too long, fail: protocol type, encap_ext fail: small buffer}), zero label, reset, disable, enable, enable-with-max(N in {0,1,2,3,255}; thorough adds 4, 7, 128, 254); state = real encapsulator value + wire monitor; every emitted start/complete packet is judged by the monitor; distinct = (op kind, outcome)");
@@ -254,7 +258,7 @@ pub fn run(tier: Tier) -> i32 {
     let sys = Sys {
         labels: vec![L6A, L6B, L3A, L3B, Lbl::Bcast, Lbl::ReUse],
         maxes: if tier.thorough() { vec![0, 1, 2, 3, 4, 7, 128, 254, 255] } else { vec![0, 1, 2, 3, 255] },
-        hows: vec![How::Complete, How::FirstFrag, How::ExtComplete, How::ExtFirstFrag, How::FailSmallBuffer, How::FailLongPdu, How::FailPtype, How::ExtFailSmallBuffer],
+        hows: all_hows(),
         long_pdu: vec![0x11u8; 65536],
     };
     let ex = explore(&sys, &Limits { max_states: if tier.thorough() { 3_000_000 } else { 800_000 }, max_depth: 100_000 }, &rep, "sender-policy");
